@@ -71,6 +71,13 @@ def _cases_core(rng, tier):
         pairs.append((MN[0], tx))
         if rng.random() < 0.4:
             pairs.append(("abandon " + tx, ""))
+    # sentences made of word-list words only, with IRREGULAR white space (double, leading, trailing blanks, tab, newline,
+    # NBSP, ideographic space): the text that is hashed is NFKD of the text as given — never a re-joined word list
+    words_ = MN[1].split(" ")
+    for sep_variant in ("  ".join(words_), " " + MN[1], MN[1] + " ", MN[1] + "\n", "\t".join(words_), "\n".join(words_),
+                        " ".join(words_[:6]) + "  " + " ".join(words_[6:]), "\u00a0".join(words_), "\u3000".join(words_),
+                        MN[0].replace(" ", "  ", 1), MN[3] + "\r\n"):
+        pairs.append((sep_variant, rng.choice(["", "TREZOR"])))
     for m, p in pairs:
         yield "seed %s %s %s %s" % (sx(m), sx(nf(m)), sx(p), sx(nf(p))), "seed"
         t = rng.choice("01")
